@@ -111,6 +111,9 @@ pub enum Policy {
     Sticky(u8),
     /// PCT-like: random priorities, `changes` priority change points spread over `horizon` steps
     Pct { changes: u32, horizon: u64 },
+    /// random choice plus stalled tasks: with probability p/256 per step the task that just ran is
+    /// not scheduled again for up to `max` steps (unless nothing else can run) -- a descheduled thread
+    Stall { p: u8, max: u32 },
 }
 
 pub struct Node {
@@ -170,6 +173,8 @@ pub struct Kernel {
     pub net: Net,
     pub policy: Policy,
     pub prio: Vec<u64>,
+    /// Policy::Stall: step number until which each task stays descheduled
+    pub paused_until: Vec<u64>,
     pub pct_points: Vec<u64>,
     pub finished: bool,
     pub truncated: bool,
@@ -252,6 +257,7 @@ impl Kernel {
             net: Net::new(),
             policy: Policy::Random,
             prio: Vec::new(),
+            paused_until: Vec::new(),
             pct_points: Vec::new(),
             finished: false,
             truncated: false,
@@ -517,6 +523,24 @@ impl Kernel {
                 Some(c) if cands.contains(&c) && (self.sched_rng.next_u64() & 0xff) < p as u64 => c,
                 _ => cands[self.sched_rng.below(cands.len() as u64) as usize],
             },
+            Policy::Stall { p, max } => {
+                let steps = self.stats.steps;
+                if let Some(c) = current {
+                    if (self.sched_rng.next_u64() & 0xff) < p as u64 {
+                        if self.paused_until.len() <= c {
+                            self.paused_until.resize(c + 1, 0);
+                        }
+                        self.paused_until[c] = steps + 10 + self.sched_rng.below(max as u64);
+                        self.fault("task_stall");
+                    }
+                }
+                let awake: Vec<usize> = cands.iter().copied().filter(|id| self.paused_until.get(*id).copied().unwrap_or(0) <= steps).collect();
+                if awake.is_empty() {
+                    cands[self.sched_rng.below(cands.len() as u64) as usize]
+                } else {
+                    awake[self.sched_rng.below(awake.len() as u64) as usize]
+                }
+            }
             Policy::Pct { .. } => {
                 while self.prio.len() <= *cands.last().unwrap() {
                     let p = (self.sched_rng.next_u64() >> 1) | (1 << 62);
